@@ -472,17 +472,33 @@ Qed.
 (* ====================================================================== *)
 
 Lemma proxy_request_sound id rep hello :
-  proxy_request id rep hello = None -> rep = PrOk /\ hello_matches id hello = true.
+  proxy_request id rep hello = None -> (exists echo, rep = PrOk echo) /\ hello_matches id hello = true.
 Proof.
   destruct rep; simpl; try discriminate.
   destruct hello as [cmd c| | |]; simpl; try discriminate.
   destruct (Z.eqb cmd ccb_reverse_connect); simpl; [|discriminate].
-  destruct (bytes_eqb (ad_string c) id); [auto|discriminate].
+  destruct (bytes_eqb (ad_string c) id); [eauto|discriminate].
+Qed.
+
+(* whatever the success reply carries besides Result (in particular a ClaimId)
+   has no influence on which hello is accepted *)
+Lemma proxy_reply_extras_ignored id b e1 e2 hello :
+  proxy_attempt id b (PrOk e1) hello = proxy_attempt id b (PrOk e2) hello.
+Proof. reflexivity. Qed.
+
+Lemma proxy_echoed_id_rejected id b echoed cmd :
+  echoed <> id ->
+  proxy_attempt id b (PrOk (Some echoed)) (GHello cmd (Some echoed)) =
+  mkOut (Failed (if Z.eqb cmd ccb_reverse_connect then AeProxyMismatch else AeProxyHello)) [b].
+Proof.
+  intro H. unfold proxy_attempt, proxy_request. destruct (Z.eqb cmd ccb_reverse_connect); [|reflexivity].
+  cbn [ad_string]. destruct (bytes_eqb echoed id) eqn:E; [|reflexivity].
+  apply bytes_eqb_eq in E. contradiction.
 Qed.
 
 Lemma proxy_attempt_only_matching id b rep hello p :
   o_res (proxy_attempt id b rep hello) = Returned p ->
-  p = b /\ rep = PrOk /\ hello_matches id hello = true /\ o_closed (proxy_attempt id b rep hello) = [].
+  p = b /\ (exists echo, rep = PrOk echo) /\ hello_matches id hello = true /\ o_closed (proxy_attempt id b rep hello) = [].
 Proof.
   unfold proxy_attempt. destruct (proxy_request id rep hello) eqn:E; simpl; [discriminate|].
   intro H. inversion H; subst. apply proxy_request_sound in E as [E1 E2]. auto.
@@ -737,7 +753,7 @@ Qed.
 
 Lemma proxy_only_matching_full : forall id b rep hello,
   (forall p, o_res (proxy_attempt id b rep hello) = Returned p ->
-     p = b /\ rep = PrOk /\ hello_matches id hello = true) /\
+     p = b /\ (exists echo, rep = PrOk echo) /\ hello_matches id hello = true) /\
   (forall e, o_res (proxy_attempt id b rep hello) = Failed e ->
      o_closed (proxy_attempt id b rep hello) = [b]).
 Proof.
